@@ -53,6 +53,11 @@ theorem sw_abs (X : Ctx) (s : St) (cur : List Elem) (h : Abs X s.v cur) (hd : s.
     · subst e2; simp [e1, hib, hi]
     · simp [e1, e2]; exact hinit idx hidx
 
+theorem afterDrops_own_tr (X : Ctx) (s : St) (es : List Elem) :
+    ownEvents ({ afterDrops X s es with v := v' } : St).sys.tr = ownEvents s.sys.tr ++ dropEvents X es := by
+  unfold afterDrops dropEvents ownEvents
+  cases X.c.needsDrop <;> simp [Ev.isOwn]
+
 theorem callback_quiet (X : Ctx) (hq : ∀ k, X.o.panicAt k = false) (s : St) :
     VM.callback X s = (.ok (), { s with sys := { s.sys with cbIdx := s.sys.cbIdx + 1 } }) := by
   simp [VM.callback, hq]
@@ -151,4 +156,70 @@ theorem retain_go_spec (X : Ctx) (hq : ∀ k, X.o.panicAt k = false) (f : Vec.Pr
       · simpa [keptFrom, hf'] using habs'
       · simpa [rejFrom, hf'] using hperm
 
+theorem keptFrom_length_le (f : Vec.Pred1) (k : Nat) (es : List Elem) : (keptFrom f k es).length ≤ es.length := by
+  induction es generalizing k with
+  | nil => simp [keptFrom]
+  | cons e es ih => simp only [keptFrom]; split <;> simp <;> have := ih (k + 1) <;> omega
+
+/-- `retain` with an arbitrary non-panicking predicate: the vector ends up exposing exactly the
+    accepted elements in their original order; the rejected ones are destroyed exactly once each
+    (and nothing else is); block and capacity are untouched -/
+theorem retain_spec (X : Ctx) (hq : ∀ k, X.o.panicAt k = false) (f : Vec.Pred1) (s : St) (es : List Elem)
+    (h : Abs X s.v es) :
+    ∃ s' rej, Vec.retain X f s = (.ok (), s') ∧ Abs X s'.v (keptFrom f 0 es) ∧
+      rej.Perm (rejFrom f 0 es) ∧ ownEvents s'.sys.tr = ownEvents s.sys.tr ++ dropEvents X rej ∧
+      s'.v.cap = s.v.cap ∧ s'.v.blk.map (·.bid) = s.v.blk.map (·.bid) := by
+  have hL : (hsOf s.v s.sys.allocIdx).L = es.length := h.len_eq
+  cases hd : s.v.isDefault with
+  | true =>
+    have hnil := (h.sentinel hd).2
+    subst hnil
+    have hptr := as_mut_ptr_run_default X.env (hsOf s.v s.sys.allocIdx) (by simp [hsOf, hd])
+    have h1 : VM.lift X (retain_pre X.env) s = (.ok (.cont ⟨0, .null, .null, .null⟩), s) :=
+      lift_read X _ s _ (by
+        unfold retain_pre
+        simp only [len_run, GM.bind_run, hL, hptr, GM.pure_run]
+        rfl)
+    obtain ⟨v', ht, habs, hb, hc, _⟩ := truncate_spec X hq s [] 0 h
+    refine ⟨{ afterDrops X s (([] : List Elem).drop 0) with v := v' }, [], ?_, by simpa [keptFrom] using habs, by simp [rejFrom], ?_, hc, by simp only; rw [hb]⟩
+    · unfold Vec.retain
+      simp only [VM.bind_run, h1, if_true, VM.pure_run, ht]
+    · rw [afterDrops_own_tr]; simp
+  | false =>
+    obtain ⟨b, hb, hl, hs, hlc, hel, hinit⟩ := h.alloc hd
+    have hal : b.lay.align = s.v.align := (make_layout_honest _ _ _ _ hl).2.1
+    have hcapb : s.v.cap ≤ b.slots.length := by rw [hs]; exact physSlots_ge X.env _ _ _ hl h.elem_pos
+    have hptr := as_mut_ptr_run X.env (hsOf s.v s.sys.allocIdx) hd b.lay s.v.cap hl
+    have h1 : VM.lift X (retain_pre X.env) s =
+        (.ok (.cont ⟨es.length, .at (dataOff s.v.align), .at (dataOff s.v.align), .at (dataOff s.v.align)⟩), s) :=
+      lift_read X _ s _ (by
+        unfold retain_pre
+        simp only [len_run, GM.bind_run, hL, hptr, GM.pure_run]
+        rfl)
+    unfold Vec.retain
+    simp only [VM.bind_run, h1]
+    by_cases hz : es.length = 0
+    · have hnil : es = [] := List.eq_nil_of_length_eq_zero hz
+      subst hnil
+      obtain ⟨v', ht, habs, hb', hc, _⟩ := truncate_spec X hq s [] 0 h
+      refine ⟨{ afterDrops X s (([] : List Elem).drop 0) with v := v' }, [], ?_, by simpa [keptFrom] using habs, by simp [rejFrom], ?_, hc, by simp only; rw [hb']⟩
+      · simp only [List.length_nil, if_true]
+        show Vec.truncate X 0 s = _
+        exact ht
+      · rw [afterDrops_own_tr]; simp
+    · have h2 := inb_blk s b hb es.length (by omega)
+      rw [hal] at h2
+      have hgo := retain_go_spec X hq f es [] [] 0 s (by simpa using h) hd
+      obtain ⟨s1, rej, hrun, habs1, hperm, hc1, hd1, hal1, hb1, htr1⟩ := hgo
+      simp only [List.length_nil, Nat.add_zero, List.nil_append] at hrun habs1 hperm
+      obtain ⟨v', ht, habs2, hb2, hc2, _⟩ := truncate_spec X hq s1 _ (keptFrom f 0 es).length habs1
+      refine ⟨{ afterDrops X s1 ((keptFrom f 0 es ++ rej).drop (keptFrom f 0 es).length) with v := v' }, rej, ?_, ?_, hperm, ?_,
+        by simp only; rw [hc2, hc1], by simp only; rw [hb2, hb1]⟩
+      · simp only [hz, if_false, VM.bind_run, h2, hrun, ht]
+      · simpa using habs2
+      · rw [afterDrops_own_tr, htr1]
+        simp
+
 end MV
+
+#print axioms MV.retain_spec
